@@ -88,8 +88,15 @@ def score_set(pi0, sep, nt, nd, rnd):
     """Targets = pi0*nt nulls ~ N(0,1) quantiles + the rest ~ N(sep,1) quantiles; decoys = N(0,1) quantiles on a grid
     shifted by 0.2/nd (so that the un-rounded sets have pairwise distinct scores - asserted in run()).
     Returned in descending score order (stable; the canonical order x)."""
-    n0 = int(round(pi0 * nt))
-    s = np.concatenate([_grid(n0), _grid(nt - n0) + sep, _grid(nd, 0.3)])
+    if pi0 < 0:
+        # mixture shape with a group of targets scoring *below* the bulk of the decoys (|pi0| of the targets at -3
+        # sigma), 40 % nulls and the rest correct: the target/decoy density ratio is not monotone at the low end
+        low = int(round(-pi0 * nt))
+        n0 = int(round(0.4 * nt))
+        s = np.concatenate([_grid(low, 0.4) * 0.5 - 3.0, _grid(n0), _grid(nt - n0 - low) + sep, _grid(nd, 0.3)])
+    else:
+        n0 = int(round(pi0 * nt))
+        s = np.concatenate([_grid(n0), _grid(nt - n0) + sep, _grid(nd, 0.3)])
     lab = np.r_[np.ones(nt, dtype=bool), np.zeros(nd, dtype=bool)]
     if rnd:
         s = np.round(s / rnd) * rnd
@@ -423,6 +430,8 @@ def run(ctx):
                 assert len({tuple(order_index(o, len(s0))) for o in all_orders()}) == len(all_orders())
     items = []
     sets = [(pi0, sep, nt, nd, rnd) for (nt, nd) in SIZES[::-1] for pi0 in PI0 for sep in SEP for rnd in ROUND]
+    # second mixture shape: a low-scoring target group (pi0 < 0 encodes its fraction)
+    sets += [(-0.15, sep, nt, nd, rnd) for (nt, nd) in SIZES[::-1] for sep in (2.0, 4.0) for rnd in (0.0, 0.1)]
     for params in sets:
         for alg in PEP_ALGS + Q_ALGS:
             items.append((params, alg, orders))
